@@ -40,12 +40,12 @@ LEVEL_TEXT = ('Metamorphic runtime monitoring of the real decoder / encoder pair
 LEVEL_NOTE = 'Trusted: ElementTree serialisation, the structural comparer, is_valid() of the same schema as judge of the encoder output.'
 TECHNIQUE = 'runtime monitoring: metamorphic round-trip oracle + re-validation of strict-encode output over seeded data mutations'
 
-ALL_FAMILIES = dict(D.FAMILIES, **D.EXTRA_FAMILIES)
+ALL_FAMILIES = dict(D.FAMILIES, poly=D.EXTRA_FAMILIES['poly'])   # fx documents are valid or invalid by design
 
 
 def plan(tier, seed):
-    n = 10 if tier == 'quick' else 260
-    shards = 12 if tier == 'quick' else 44
+    n = 24 if tier == 'quick' else 260
+    shards = 16 if tier == 'quick' else 44
     return [{'kind': 'docs', 'docs': n, 'dshard': s} for s in range(shards)]
 
 
